@@ -145,6 +145,10 @@ func (r *nodeBasedBalancer) balanceHighestNode(loadRatios *model.Ratio, candidat
 				slog.String("from-node", fromNodeID),
 				slog.Any("error", err),
 			)
+			// move on to the next shard: retrying the same one would fail the same way, forever
+			if !shardIter.Prev() {
+				break
+			}
 			continue
 		}
 		if !shardIter.Prev() {
